@@ -50,6 +50,7 @@ def model_check(ctx):
     ctx.mc_expect("MC_ScenarioStore", "DEV_ScenarioStore_2.cfg", "PropRejectAtomic")
     ctx.mc_expect("MC_ScenarioStore", "DEV_ScenarioStore_3.cfg", "PropRejectAtomic")
     ctx.mc_expect("MC_ScenarioStore", "DEV_ScenarioStore_4.cfg", "InvPoolExact")
+    ctx.mc_expect("MC_ScenarioStore", "DEV_ScenarioStore_5.cfg", "InvPoolExact")
     if ctx.thorough:      # unbounded histories: inductive invariant of spec/APA_ScenarioStore.tla checked by Apalache (crv/apalache.py)
         from crv import apalache
         apalache.append_run(ctx, "APA_ScenarioStore")
@@ -59,7 +60,7 @@ def cases(ctx):
     tok = tokens(refresh=True)
     cs = []
     init = json.dumps({"C": [], "ids": [], "cnt": -1, "gen": [], "sg": [], "lt": []}, sort_keys=True)
-    cfgs = ["GEN_ScenarioStore_1.cfg", "GEN_ScenarioStore_2.cfg", "GEN_ScenarioStore_3.cfg"]
+    cfgs = ["GEN_ScenarioStore_1.cfg", "GEN_ScenarioStore_2.cfg", "GEN_ScenarioStore_3.cfg", "GEN_ScenarioStore_4.cfg"]
     n_edges = 0
     for cfg in cfgs:
         r = tlc.run_tlc("MC_ScenarioStore", cfg, "c09_" + cfg[:-4], workers=1, timeout=1800)
